@@ -2,6 +2,10 @@
 """Generates MANIFEST.json. Edit BUILT / texts here, run, commit."""
 import json
 BUILT = {
+ "C12": dict(level="fault_enumeration", engine="enum", technique="exhaustive fault-position enumeration: a destination writer failing at every byte offset (two failure styles) and a cancelled context, for every catalogue program and entry point",
+   text="31 catalogue programs (succeeding and failing early, late, inside an include, inside a layout) x 5 entry points x {healthy recording writer, cancelled context, writer refusing / short-writing at every byte offset of the reference output}. Error => nothing written; nil => exactly the reference bytes; any writer failure => non-nil error.",
+   note="Trusts the catalogue (checks/catalog.go). Writers that return n < len(p) with a nil error are out of scope. The reference bytes are the implementation's own output into a bytes.Buffer.",
+   ref="DESIGN.md §3 C12"),
  "C10": dict(level="model_checking", engine="bfs", technique="deviation-bounded exhaustive exploration of map iteration orders (seam decided by the explorer) and of render histories on one engine, differential against the default-order fresh-engine run",
    text="Every map iteration of the vuego module is routed through a seam; for each of 31 catalogue programs every execution with <=1 (thorough <=2) deviating iteration occurrences (all permutations for <=4 keys, reversal and rotations above) and two global orders must reproduce the bytes of the ascending-order run. Every ordered pair (thorough: triple) of programs on one engine: last render equals the fresh-engine render and carries no canary of an earlier one. Caller data deep-equal before/after through 4 entry points; frozen and backwards clocks.",
    note="Trusts cmd/vinstr to find every range-over-map / MapKeys site by type (25 sites today) and the seam packages. Map iteration inside dependencies is not controlled. The reference is the implementation's own default-order, fresh-engine output: no hand-written expectation.",
